@@ -340,22 +340,28 @@ def run(repo, rep, tier):
                     h = repo.method(c, ch[1], required=False)
                     if isinstance(h, FuncInfo) and h.cls is c and helper_summary(repo, c, ch[1]).dirties:
                         analyse(repo, rep, r1, c, h)
-        # R12.2
+        # R12.2 (decided with the routing evaluator: all regions of the datum, every path)
         if c.name in SINGLE_PATH:
-            def cnt_transfer(node, st):
-                k = 0
-                for e in header_exprs(node):
-                    if e is None:
-                        continue
-                    k += sum(1 for s in ast.walk(e) if isinstance(s, ast.Call) and is_child_fill(s))
-                return min(2, st + k)
+            from ..interp import Unsup
+            from ..routing import configs, run_fill
 
-            st = solve_forward(g, 0, cnt_transfer, max)
-            worst = st.get(g.ret.id, 0)
-            r2.ob(worst <= 1, f"{f.qualname}: at most {worst} child fill(s) on any path")
+            worst = 0
+            where = None
+            for size in (1, 2, 3):
+                for cfg in configs(repo, c.name, size):
+                    for label, q in cfg.regions:
+                        try:
+                            paths = run_fill(repo, cfg, label, q, "pos")
+                        except Unsup as e:
+                            raise AnalysisError(f"{f.construct}: {e}")
+                        for p in paths:
+                            k = sum(1 for e in p.effects if e[0] == "fill")
+                            if k > worst:
+                                worst, where = k, (cfg.desc, label)
+            r2.ob(worst <= 1, f"{f.qualname}: at most {worst} child fill(s) on any path, over all regions of the datum")
             if worst > 1:
-                rep.finding("R12.2", f, f.node, "some path through fill fills more than one child: a failure in the second "
-                            "child leaves the first one modified, so the subtree is not rolled back",
+                rep.finding("R12.2", f, f.node, f"a datum in region `{where[1]}` ({where[0]}) fills {worst} children on one path: a failure in "
+                            f"a later child leaves the earlier one modified, so the subtree is not rolled back",
                             stmt="more than one child fill on a path")
         # R12.3 marker comment
         lines = [ln for ln in f.module.comment_lines("no possibility of exception from here on out")
